@@ -428,6 +428,10 @@ func chainReplay(raw json.RawMessage, idx int, tr *traceWriter) {
 			return b == v.BStop
 		})
 	}
+	if v.Fast == 0 {
+		// a handler wrapper (applied to route / not-found handlers that are not fast invokers): the identity here
+		f.HandlerWrapper(func(h flamego.Handler) flamego.Handler { return h })
+	}
 	if v.HS {
 		f.Use(func() { panic("replaced by Handlers()") }) // must be gone after Handlers()
 		f.Handlers(hs[:v.Mw]...)
